@@ -6,6 +6,7 @@ package c02
 import (
 	"context"
 	"encoding/hex"
+	"encoding/json"
 	"fmt"
 	"math"
 	"math/big"
@@ -39,6 +40,7 @@ type group struct {
 	p        params
 	argv     []reflect.Value // arguments after (d[, name])
 	label    string          // e.g. U(37) S16LE FP(64,32) UE(24,LE)
+	stepWhat string
 	id       uint64
 }
 
@@ -94,6 +96,7 @@ func newGroup(variants []*reader, p params) *group {
 		h = (h ^ uint64(c)) * 1099511628211
 	}
 	g.id = h
+	g.stepWhat = "d.<form>" + g.label + " (exact method, d.Endian, position and buffer are in the recorded case)"
 	return g
 }
 
@@ -111,6 +114,21 @@ type Case struct {
 	BufHex  string `json:"buf_hex"`
 	BufBits int    `json:"buf_bits"`
 	E2E     bool   `json:"through_decode,omitempty"`
+}
+
+// lazyCase defers building the replayable case of the call in progress until the
+// step watchdog (a call that never returns) actually needs it.
+type lazyCase struct {
+	x    *runner
+	rd   *reader
+	g    *group
+	dEnd int
+	bc   *bufCtx
+	e2e  bool
+}
+
+func (l lazyCase) MarshalJSON() ([]byte, error) {
+	return json.Marshal(l.x.mkCase(l.rd, l.g, l.dEnd, l.bc, l.e2e))
 }
 
 type result struct {
@@ -336,12 +354,13 @@ type runner struct {
 	calls      map[string]int64 // per kind
 	verbose    bool             // replay: print both observations
 	sinceFlush int
+	sampled    map[kind]bool
 	reported   map[string]bool
 	folded     int64
 }
 
 func newRunner(r *core.Run) *runner {
-	return &runner{r: r, nontriv: map[uint64]struct{}{}, calls: map[string]int64{}, reported: map[string]bool{}}
+	return &runner{r: r, nontriv: map[uint64]struct{}{}, calls: map[string]int64{}, reported: map[string]bool{}, sampled: map[kind]bool{}}
 }
 
 func (x *runner) flush() {
@@ -606,7 +625,9 @@ func (x *runner) callIn(d *decode.D, dv reflect.Value, rd *reader, g *group, dEn
 	nBefore := len(children(d))
 	x.seq++
 	name := fieldName(x.seq)
+	x.r.StepBegin(rd.name, g.stepWhat, lazyCase{x, rd, g, dEnd, bc, false})
 	res := invoke(rd, g, dv, name, true)
+	x.r.StepEnd()
 	posAfter, _ := d.TryPos()
 	ch := children(d)
 	var last *decode.Value
@@ -624,6 +645,8 @@ func (x *runner) callThroughDecode(rd *reader, g *group, dEnd int, exp expect, b
 	name := fieldName(x.seq)
 	var res result
 	returned := false
+	x.r.StepBegin(rd.name, g.stepWhat, lazyCase{x, rd, g, dEnd, bc, true})
+	defer x.r.StepEnd()
 	v, _, err, pv, stack := decodeRun(bc.phys, len(bc.bits), func(d *decode.D) any {
 		d.Endian = fqEndian(dEnd)
 		d.SeekAbs(int64(bc.pos))
@@ -708,6 +731,11 @@ func (x *runner) runBuffer(bc *bufCtx, groups []*group, e2e bool) {
 					for _, rd := range g.variants {
 						good := x.callIn(d, dv, rd, g, dEnd, exp, b)
 						x.calls[kindNames[rd.kind]]++
+						if good && b.mixed && exp.mode == mValue && !x.sampled[rd.kind] && x.r.ShardIdx == 0 && len(b.bits) < 200 {
+							x.sampled[rd.kind] = true
+							x.r.Sample(map[string]any{"call": "d." + strings.Replace(g.label, g.base.base, rd.name, 1), "d_endian": endianName(dEnd), "at_bit": b.pos,
+								"buffer_bits": core.Bits(toBools(b.bits)).String(), "returned_and_reference": show(exp.val), "bits_consumed": exp.consumed})
+						}
 						if good && b.mixed && exp.mode == mValue {
 							x.nontriv[g.id*31+uint64(rd.variant)*7+uint64(dEnd)*3+uint64(b.pos%8)*1000003+b.fillTag*7919] = struct{}{}
 						}
